@@ -12,6 +12,7 @@ import (
 	"os/exec"
 	"sort"
 	"strings"
+	"time"
 	"unsafe"
 
 	"github.com/jmeaster30/vore/libvore"
@@ -223,7 +224,15 @@ func rw(w bool) string {
 	return "read"
 }
 
+// poolMisuse counts sync.Pool.Put calls for an object that was already in the pool (reported by
+// the pool shim; also outside a scheduled execution, e.g. in the sequential reference run).
+var poolMisuse int
+
 func hookSync(op string, addr unsafe.Pointer) {
+	if op == "PoolDoublePut" {
+		poolMisuse++
+		return
+	}
 	s := curSched
 	if s == nil {
 		return
@@ -393,16 +402,21 @@ func runThread(v *libvore.Vore, text string) func() string {
 }
 
 const (
-	srcProcA = "set f to transform set v to 1 set w to 'q' return v * 2 end\nreplace all 'a' with f"
-	srcProcB = "set g to transform return head v + tail w end\nset p to pattern 'a' begin set k to matchLength return k == 1 end\nreplace all p with g"
-	srcBadA  = "find all 'abc"
-	srcBadB  = "find all 'a' \"xyz"
-	srcBadC  = "find all 'a' ~"
+	srcProcA   = "set f to transform set v to 1 set w to 'q' return v * 2 end\nreplace all 'a' with f"
+	srcProcB   = "set g to transform return head v + tail w end\nset p to pattern 'a' begin set k to matchLength return k == 1 end\nreplace all p with g"
+	srcBadA    = "find all 'abc"
+	srcBadB    = "find all 'a' \"xyz"
+	srcBadC    = "find all 'a' ~"
 	srcGroupsA = "find all @/(a)(b)?/"
 	srcGroupsB = "find all @/((a)|(1))( )?/ find all @/(b)\\1/"
 	srcPlain   = "find all 'a' maybe 'b'"
 	srcShared  = "set p to pattern 'a' or 'ab'\nfind all p in 'b', '1' maybe p\nfind all at most 2 (p = x) x"
+	// statement-level operations on two literals, on a literal and a variable, in set / if / return / debug-free positions
+	srcSharedProc = "set lim to transform set n to 1 + 1 set m to 'x' + 'y' if 2 > 1 then set n to n * 1 end if matchLength >= 3 - 1 then return 'L' + n end return match + m end\n" +
+		"set p to pattern at least 1 'a' begin set k to 2 * 2 return matchLength < k - 1 end\nreplace all p with lim '.'\nfind all p 'b'"
 )
+
+var srcLongReads = "find all whole file\nfind all '" + strings.Repeat("c", 70) + "' any"
 
 func c19Scenarios() []scenario {
 	compileOnly := func(name string, srcs ...string) scenario {
@@ -429,7 +443,61 @@ func c19Scenarios() []scenario {
 		}
 		return v
 	}
+	sharedProc := func() any {
+		v, err := libvore.Compile(srcSharedProc)
+		if err != nil {
+			panic(err)
+		}
+		return v
+	}
 	return []scenario{
+		// a program is immutable once compiled: whatever a Run writes into it, another Run reads without synchronisation.
+		// The program is fresh in every execution (its first Run happens under the scheduler) and carries process code.
+		{name: "S9 Run || Run on a fresh program with a transform and a predicate", setup: sharedProc, threads: func(sh any) ([]func() string, func() []string) {
+			v := sh.(*libvore.Vore)
+			k0, _ := bytecodeKey(v)
+			obs := make([]string, 2)
+			return []func() string{func() string { obs[0] = runThread(v, "aab a")(); return "" }, func() string { obs[1] = runThread(v, "a aaa")(); return "" }}, func() []string {
+				k1, _ := bytecodeKey(v)
+				return []string{obs[0], obs[1], "shared-bytecode-unchanged=" + fmt.Sprint(k0 == k1)}
+			}
+		}},
+		// reads longer than any small scratch buffer (a 70-byte literal, whole file) on three goroutines
+		{name: "S10 Run(long reads) || Run(long reads) || Run(short reads)", setup: func() any {
+			v, err := libvore.Compile(srcLongReads)
+			if err != nil {
+				panic(err)
+			}
+			return v
+		}, threads: func(sh any) ([]func() string, func() []string) {
+			v := sh.(*libvore.Vore)
+			obs := make([]string, 3)
+			return []func() string{func() string { obs[0] = runThread(v, strings.Repeat("c", 70)+"x")(); return "" }, func() string { obs[1] = runThread(v, strings.Repeat("c", 70)+"yy")(); return "" },
+					func() string { obs[2] = runThread(v, "cb")(); return "" }}, func() []string {
+					return []string{obs[0], obs[1], obs[2]}
+				}
+		}},
+		// the text between and after two replaced matches is copied in one long read each
+		{name: "S11 Run(replace, long gaps) || Run(replace, long gaps)", setup: func() any {
+			v, err := libvore.Compile("replace all 'ab' with 'X'")
+			if err != nil {
+				panic(err)
+			}
+			return v
+		}, threads: func(sh any) ([]func() string, func() []string) {
+			v := sh.(*libvore.Vore)
+			obs := make([]string, 2)
+			return []func() string{func() string {
+					obs[0] = runThread(v, "ab"+strings.Repeat("-", 80)+"ab"+strings.Repeat("=", 70))()
+					return ""
+				},
+					func() string {
+						obs[1] = runThread(v, strings.Repeat("+", 66)+"ab"+strings.Repeat("~", 90))()
+						return ""
+					}}, func() []string {
+					return []string{obs[0], obs[1]}
+				}
+		}},
 		compileOnly("S1 Compile(groups) || Compile(groups)", srcGroupsA, srcGroupsB),
 		compileOnly("S2 Compile(groups) || Compile(no groups)", srcGroupsB, srcPlain),
 		compileOnly("S6 Compile || Compile || Compile", srcGroupsA, srcGroupsB, srcGroupsA),
@@ -479,6 +547,9 @@ func runC19(c *Ctx) {
 			sc, bound := sc, bound
 			if bound >= 3 && !strings.HasPrefix(sc.name, "S1") && !strings.HasPrefix(sc.name, "S2") && !strings.HasPrefix(sc.name, "S6") && !strings.HasPrefix(sc.name, "S7") && !strings.HasPrefix(sc.name, "S8") {
 				continue // 3 preemptions only for the Compile-only scenarios (those with Run have a point per VM instruction)
+			}
+			if bound >= 2 && strings.HasPrefix(sc.name, "S11") {
+				continue // ~200 VM instructions per thread
 			}
 			if !c.Unit(func() string { return fmt.Sprintf("%s, <= %d preemptions", sc.name, bound) }) {
 				continue
@@ -532,11 +603,13 @@ func racePass(c *Ctx) {
 func exploreScenario(c *Ctx, sc scenario, bound int) {
 	// expected: every call executed alone — as the only call of a fresh process (a call that is
 	// influenced by an EARLIER call of the same process is as wrong as one influenced by a concurrent call)
+	poolMisuse = 0
 	bodies, finish := sc.threads(sc.setup())
 	for _, b := range bodies {
 		b()
 	}
 	want := finish()
+	poolMisuse = 0 // counted again in every scheduled execution
 	for i := range bodies {
 		if o, ok := aloneObservation(sc.name, i); ok {
 			want[i] = o
@@ -551,6 +624,14 @@ func exploreScenario(c *Ctx, sc scenario, bound int) {
 		if nexec >= cap {
 			return
 		}
+		if c.Only < 0 && nexec%64 == 0 && time.Now().After(c.Deadline) {
+			if !c.stopped {
+				c.Note(fmt.Sprintf("%s bound %d: budget used up after %d executions; not exhaustive at this bound", sc.name, bound, nexec))
+			}
+			c.stopped = true // reported as exhaustive=false
+			return
+		}
+		poolMisuse = 0
 		bodies, finish := sc.threads(sc.setup())
 		x := runSchedule(bodies, prefix)
 		obs := finish()
@@ -569,6 +650,8 @@ func exploreScenario(c *Ctx, sc scenario, bound int) {
 		c.Outcome(sc.name + key)
 		problem := ""
 		switch {
+		case poolMisuse > 0:
+			problem = "POOL-MISUSE an object was put into a sync.Pool that already held it: two later Get calls, possibly of different goroutines, share it"
 		case x.deadlock != "":
 			problem = "DEADLOCK " + x.deadlock
 		case len(x.races) > 0:
